@@ -1,4 +1,4 @@
-//! tracker operations: `T reset <lat> <lon> <range>`, `T act <hex>`, `T age <ms>`, `T prune <secs>`, `T dump`
+//! tracker operations: `T reset <lat> <lon> <range>`, `T rx <lat> <lon>`, `T act <hex>`, `T age <ms>`, `T prune <secs>`, `T dump`
 use adsb_deku::Frame;
 use rsadsb_common::{Added, AirplaneCoor, AirplaneState, Airplanes};
 
@@ -41,6 +41,12 @@ pub fn op(st: &mut State, args: &[&str]) -> String {
         ["reset", lat, lon, range] => {
             let (Ok(la), Ok(lo), Ok(r)) = (lat.parse::<f64>(), lon.parse::<f64>(), range.parse::<f64>()) else { return "BADOP".into() };
             *st = State { a: Airplanes::new(), rx: (la, lo), range: r };
+            "OK".into()
+        }
+        // the receiver moves (radar refreshes its position from gpsd): later calls of `action` get the new position, the tracked set stays
+        ["rx", lat, lon] => {
+            let (Ok(la), Ok(lo)) = (lat.parse::<f64>(), lon.parse::<f64>()) else { return "BADOP".into() };
+            st.rx = (la, lo);
             "OK".into()
         }
         ["act", h] => {
